@@ -55,7 +55,7 @@ func (g *gen) add(c *funcs.Class) {
 	g.stats["tag:"+c.Kind+":"+c.Tag]++
 }
 
-func (g *gen) anyType() int { return g.rng.Intn(funcs.PoolSize()) }
+func (g *gen) anyType() int { pt := funcs.PoolTypes(); return pt[g.rng.Intn(len(pt))].ID }
 
 func (g *gen) okType() int {
 	ok := funcs.OKTypes()
@@ -334,6 +334,21 @@ func (g *gen) genC15() {
 		g.add(&funcs.Class{Prop: "C15", Kind: "apply", Tag: "argexpr:imported", Ps: ps, Rs: g.types(1+i%2, false),
 			LastExpr: e.expr, LastPayload: e.payload, Import: "corpus/geo"})
 	}
+	// signatures that mention INSTANCES of generic named types, as parameters and results, for every wrapper
+	for i, kind := range []string{"curry", "flip", "apply", "uncurrycurry"} {
+		ps := g.params(naming("named", 2+i%2))
+		ps[i%len(ps)].T = 23 + i%2
+		g.add(&funcs.Class{Prop: "C15", Kind: kind, Tag: "generic-instance", Ps: ps, Rs: []int{24 - i%2}})
+	}
+	g.add(&funcs.Class{Prop: "C15", Kind: "uncurry", Tag: "generic-instance", Outer: []funcs.Param{{Name: "a", T: 23}}, Inner: []funcs.Param{{Name: "b", T: 24}}, Rs: []int{23}})
+	g.add(&funcs.Class{Prop: "C15", Kind: "tuple", Tag: "generic-instance", Ts: []int{23, 24}})
+	// derive calls nested three and four deep in a package without an old derived.gen.go: one run must do
+	for i := 0; i < 3; i++ {
+		ps := g.params(naming("named", 3+i%2))
+		rs := g.types(1+i%2, false)
+		g.add(&funcs.Class{Prop: "C15", Kind: "nest3", Tag: "nested", Ps: ps, Rs: rs})
+		g.add(&funcs.Class{Prop: "C15", Kind: "nest4", Tag: "nested", Ps: ps, Rs: rs})
+	}
 	// tuple of slices: deriveTuple(xs, n)() returns xs itself
 	for _, ts := range [][]int{{9, 0}, {9}, {1, 9, 9}} {
 		g.add(&funcs.Class{Prop: "C15", Kind: "tuple", Tag: "sliceobs", Ts: ts, SliceObs: true})
@@ -453,7 +468,7 @@ func (g *gen) genC16() {
 			}
 		}
 		// every type of the table as a final result
-		for _, t := range funcs.Types[:funcs.PoolSize()] {
+		for _, t := range funcs.PoolTypes() {
 			n := 2 + t.ID%3
 			st := make([][]int, n)
 			for s := range st {
@@ -492,7 +507,7 @@ func (g *gen) genC16() {
 	}
 	// ---- fmap, error form
 	g.add(&funcs.Class{Prop: "C16", Kind: "fmape", Tag: "results:0", In: g.anyType()})
-	for _, t := range funcs.Types[:funcs.PoolSize()] {
+	for _, t := range funcs.PoolTypes() {
 		g.add(&funcs.Class{Prop: "C16", Kind: "fmape", Tag: "results:1:" + t.Kind, In: g.anyType(), Outs: []int{t.ID}})
 	}
 	for i := 0; i < 6; i++ {
@@ -509,7 +524,7 @@ func (g *gen) genC16() {
 	}
 	// ---- join, error form
 	g.add(&funcs.Class{Prop: "C16", Kind: "joine", Tag: "results:0"})
-	for _, t := range funcs.Types[:funcs.PoolSize()] {
+	for _, t := range funcs.PoolTypes() {
 		g.add(&funcs.Class{Prop: "C16", Kind: "joine", Tag: "results:1:" + t.Kind, Outs: []int{t.ID}})
 	}
 	for i := 0; i < 4; i++ {
@@ -527,7 +542,7 @@ func (g *gen) genC16() {
 		g.add(&funcs.Class{Prop: "C16", Kind: "fmape", Tag: fmt.Sprintf("results:%d", 2+i%2), In: g.anyType(), Outs: g.types(2+i%2, false)})
 	}
 	// ---- traverse
-	for _, t := range funcs.Types[:funcs.PoolSize()] {
+	for _, t := range funcs.PoolTypes() {
 		g.add(&funcs.Class{Prop: "C16", Kind: "traverse", Tag: "out:" + t.Kind, In: g.anyType(), Outs: []int{t.ID}})
 	}
 	// ---- custom error types and near-misses wherever derive.IsError decides (accept / refuse, does the
